@@ -353,3 +353,26 @@ package proxy
 // the covered headers are the documented ones, in the documented order
 //@ lemmafn C12_covered_headers_are_the_documented_list()
 //@   ensures [C12] documented_list: len(signedHeaders) == 10 && signedHeaders[0] == "Content-Length" && signedHeaders[1] == "Content-Md5" && signedHeaders[2] == "Content-Type" && signedHeaders[3] == "Date" && signedHeaders[4] == "Authorization" && signedHeaders[5] == "X-Forwarded-User" && signedHeaders[6] == "X-Forwarded-Email" && signedHeaders[7] == "X-Forwarded-Groups" && signedHeaders[8] == "X-Forwarded-Access-Token" && signedHeaders[9] == "Cookie"
+
+// ---- C13: each upstream's proxy is built from that upstream's own configuration -----------------------------------
+// Summaries without postconditions ("may do anything, result unknown") keep proxy.New's paths few; they claim nothing.
+//@ func NewUpstreamReverseProxy(config *UpstreamConfig, signer *RequestSigner) (http.Handler, error)
+//@   modifies everything
+//@ func NewOAuthProxy(sc SessionConfig, optFuncs ...func(*OAuthProxy) error) (*OAuthProxy, error)
+//@   modifies everything
+//@ func (p *OAuthProxy) Handler() http.Handler
+//@   modifies everything
+//@ func SetCookieStore(cc CookieConfig) func(*OAuthProxy) error
+//@   modifies everything
+
+// The provider is built for the slug of the configuration it is given.
+//@ func newProvider(cc ClientConfig, pc ProviderConfig, sc SessionConfig, uc UpstreamConfigs, statsdClient *statsd.Client) (providers.Provider, error)
+//@   modifies everything
+//@   ensures [C13] provider_has_the_given_default_slug: result.1 == nil ==> called(@New#1) && at(@New#1, arg(@New#1, 1).ProviderSlug) == old(uc.DefaultConfig.ProviderSlug) && called(@NewSingleFlightProvider#1) && arg(@NewSingleFlightProvider#1, 0) == @New#1 && typeis(result.0, "*proxy/providers.SingleFlightProvider")
+
+// One provider, reverse proxy, validator set and OAuthProxy per upstream, each from that upstream's configuration.
+//@ func New(config Configuration, statsdClient *statsd.Client) (*SSOProxy, error)
+//@   modifies everything
+//@   sink [C13] provider_is_the_upstreams_own: newProvider requires $arg3.DefaultConfig.ProviderSlug == upstreamConfig.ProviderSlug
+//@   sink [C13] backend_is_the_upstreams_own: NewUpstreamReverseProxy requires $arg0 == upstreamConfig
+//@   sink [C13] policy_is_the_upstreams_own: SetUpstreamConfig requires $arg0 == upstreamConfig
